@@ -191,6 +191,11 @@ func runC12(ctx *core.Ctx, idx int) *core.Result {
 			case 2:
 				fo.Plants = append(fo.Plants, gen.Plant{Kind: "expr", Text: "dep.Other(2)"})
 			}
+			if r.Intn(3) == 0 {
+				// a file that does not import the path at all: the change does not apply to it whatever its code looks
+				// like, and it is an unmatched file in every mode (echoed by --print-only, silent otherwise)
+				fo.Imports = "import \"os\"\n"
+			}
 		}
 		src := g.File(fo)
 		layout := "gofmt-like"
